@@ -8,6 +8,7 @@ COMMON_TB = [
 FLOAT_TB = "IEEE-754 rounding: theorems are over exact rationals; the f64 instance of the same definitions is compared bit-for-bit with the Rust results on the generated cases"
 CONSTS = {"script": "gen_consts.py"}
 UNITS = {"script": "gen_units.py"}
+UNITS_ALT = {"script": "gen_units.py", "args": ["lean/CookModel/Gen/UnitsAlt.lean", "corpus/C09/alt_units.toml", "GenAlt"]}
 
 CHARTABLE = {"harness": ["chartable", "{LEAN}/CookModel/Gen/CharTable.lean"]}
 SYNTAX_TB = [
@@ -34,7 +35,7 @@ PROPS = {
                         "accuracy in [0,1] and max_den <= 64 (the documented preconditions; callers are checked under C03/C16)"],
     },
     "C09": {
-        "gen": [CONSTS, UNITS],
+        "gen": [CONSTS, UNITS, UNITS_ALT],
         "trusted_base": COMMON_TB + [FLOAT_TB,
             "translators/gen_units.py (units.toml -> Gen/Units.lean: exact decimals + f64 bits, id order and SI expansion of ConverterBuilder, fractions layers resolved as build_fractions_config does); its output is compared row by row with Converter::bundled() by the check",
             "translators/gen_consts.py (the 0.001 slack of best_unit)",
@@ -42,6 +43,16 @@ PROPS = {
             "modelled, not verified: std f64 abs / partial_cmp, Iterator::min_by / rev / find, slice::sort_by (stable); the unit index, Arc identity and all_units[id] are represented by resolved records carrying their id"],
         "assumptions": ["the converter is well formed (Converter.wf: best lists hold units of their own quantity, every unit has a key, fractions configurations within new_approx's documented preconditions); decided for the generated bundled converter (C09_bundled_wf), for other converters it is C16's invariant",
                         "oracle values are finite with magnitude in [1e-9, 1e12] or zero (outside that range f64 overflow/underflow makes 'within floating-point tolerance' meaningless); non-finite and extreme values are compared with the model only"],
+    },
+    "C08": {
+        "gen": [CONSTS, UNITS, UNITS_ALT],
+        "trusted_base": COMMON_TB + [FLOAT_TB,
+            "translators/gen_units.py and gen_consts.py (the converter used for fitting after scaling; see C09)",
+            "the parsed recipe is an input of the model: the harness sends the quantities the real parser produced (value bits, units, Fixed/Linear), so the parser is not part of this check except for the Linear/Fixed decision, which is modelled (mkScalable) and compared on what the generator wrote",
+            "modelled, not verified: serde's JSON image is used by the oracle to state 'everything else is byte-equal'"],
+        "assumptions": ["the converter satisfies the builder's invariants (Converter.Sound; decided for the bundled converter, C09_bundled_sound)",
+                        "oracle: finite positive factors, values and products with magnitude in [1e-9, 1e12] or zero; other factors (0 servings, huge values) are compared with the model only",
+                        "for units with an offset (°C, °F) 'multiplied by f' is read as: the written value is multiplied by f (amount of f·v in the written unit); for all other units this is f times the physical amount"],
     },
     "C04": {
         "gen": [CONSTS, CHARTABLE],
